@@ -14,6 +14,16 @@ structure XLaws (X : XAlg) : Prop where
   size_pos : 0 < X.size
   out_len : ∀ h, (X.A.out h).length = X.size
 
+theorem take_len_add {α : Type} (a b : List α) (n : Nat) : (a ++ b).take (a.length + n) = a ++ b.take n := by
+  induction a with
+  | nil => simp
+  | cons x t ih => simp only [List.cons_append, List.length_cons]; rw [show t.length + 1 + n = (t.length + n) + 1 by omega]; simp [ih]
+
+theorem drop_len_add {α : Type} (a b : List α) (n : Nat) : (a ++ b).drop (a.length + n) = b.drop n := by
+  induction a with
+  | nil => simp
+  | cons x t ih => simp only [List.cons_append, List.length_cons]; rw [show t.length + 1 + n = (t.length + n) + 1 by omega]; simp [ih]
+
 /-! ### one node = BLAKE2 with the node's parameter block over the root hash -/
 
 theorem nodeHash_eq (L : Laws X.A) (len : Nat) (d : Digest X.A) (cfg : Cfg) (root : Bytes)
@@ -136,17 +146,229 @@ theorem fullNodes_spec (W : XLaws X) (len : Nat) (h0 : Bytes) (k : Nat) : ∀ (x
     refine ⟨?_, ?_, r3, r4, ?_⟩
     · rw [r1, hnf, h2, h3, n1, List.append_assoc]
       congr 1
-      rw [List.take_append, hlen, Nat.succ_mul,
-        List.take_of_length_le (by rw [hlen]; omega)]
-      congr 2
-      omega
-    · rw [r2, hnf, List.drop_append, hlen, Nat.succ_mul,
-        List.drop_of_length_le (by rw [hlen]; omega)]
-      simp only [List.nil_append]
-      congr 1
-      omega
+      have e : (k + 1) * X.size = (nodeFull X len h0 x.nodeOffset X.size).length + k * X.size := by
+        rw [hlen, Nat.succ_mul]; omega
+      rw [e, take_len_add]
+    · rw [r2, hnf]
+      have e : (k + 1) * X.size = (nodeFull X len h0 x.nodeOffset X.size).length + k * X.size := by
+        rw [hlen, Nat.succ_mul]; omega
+      rw [e, drop_len_add]
     · rw [r5, Nat.succ_mul]
       show x.remaining - X.size - k * X.size = _
       omega
+
+/-! ### phase 3: a node that is consumed only in part -/
+
+theorem partialNode_spec (W : XLaws X) (len : Nat) (h0 : Bytes) (x : Xof X) (todo : Nat) (acc : Bytes)
+    (hw : WF len h0 x) (ho : x.offset = 0) (ht0 : 0 < todo) (ht : todo < X.size) (htr : todo ≤ x.remaining) :
+    (x.partialNode true todo acc).2 = acc ++ (nodesFrom X len h0 x.nodeOffset x.remaining).take todo ∧
+    future len h0 (x.partialNode true todo acc).1 = (nodesFrom X len h0 x.nodeOffset x.remaining).drop todo ∧
+    WF len h0 (x.partialNode true todo acc).1 ∧
+    (x.partialNode true todo acc).1.remaining = x.remaining - todo := by
+  have hs := W.size_pos
+  obtain ⟨h1, h2, h3, h4, h5, h6, h7⟩ := hw
+  subst h2 h3
+  have hdl : x.cfg.dlen = X.size := h7 (Or.inl ho)
+  generalize hdlv : min X.size x.remaining = dl
+  have hcfg : ({ (if x.remaining < X.size then { x.cfg with dlen := x.remaining } else x.cfg) with
+      nodeOff := x.nodeOffset } : Cfg) = ⟨dl, x.nodeOffset⟩ := by
+    by_cases hr : x.remaining < X.size
+    · rw [if_pos hr]; show (⟨x.remaining, x.nodeOffset⟩ : Cfg) = ⟨dl, _⟩
+      rw [← hdlv, Nat.min_eq_right (by omega)]
+    · rw [if_neg hr]; show (⟨x.cfg.dlen, x.nodeOffset⟩ : Cfg) = ⟨dl, _⟩
+      rw [hdl, ← hdlv, Nat.min_eq_left (by omega)]
+  obtain ⟨n1, n2⟩ := nodeHash_eq W.L x.length x.d ⟨dl, x.nodeOffset⟩ x.root h6
+  simp only [] at n1
+  have hN := nodeFull_len W x.length x.root x.nodeOffset dl
+  have hdlt : todo ≤ dl := by omega
+  have hnf := nodesFrom_pos (X := X) x.length x.root x.nodeOffset x.remaining (by omega) hs
+  rw [hdlv] at hnf
+  have hpn : x.partialNode true todo acc =
+      ({ x with cfg := ⟨dl, x.nodeOffset⟩, nodeOffset := x.nodeOffset + 1,
+                d := (nodeHash X x.length x.d ⟨dl, x.nodeOffset⟩ x.root).1,
+                block := (nodeHash X x.length x.d ⟨dl, x.nodeOffset⟩ x.root).2,
+                offset := todo, remaining := x.remaining - todo },
+       acc ++ ((nodeHash X x.length x.d ⟨dl, x.nodeOffset⟩ x.root).2).take todo) := by
+    simp only [Xof.partialNode, hcfg, ↓reduceIte]
+  rw [hpn]
+  simp only []
+  have htake : (nodesFrom X x.length x.root x.nodeOffset x.remaining).take todo =
+      (nodeFull X x.length x.root x.nodeOffset dl).take todo := by
+    rw [hnf, List.take_append_of_le_length (by rw [List.length_take, hN]; omega), List.take_take,
+      Nat.min_eq_left hdlt]
+  have hdrop : (nodesFrom X x.length x.root x.nodeOffset x.remaining).drop todo =
+      ((nodeFull X x.length x.root x.nodeOffset dl).drop todo).take (dl - todo) ++
+        nodesFrom X x.length x.root (x.nodeOffset + 1) (x.remaining - dl) := by
+    rw [hnf, List.drop_append_of_le_length (by rw [List.length_take, hN]; omega), List.drop_take]
+  refine ⟨by rw [htake, n1], ?_, ?_, trivial⟩
+  · rw [hdrop]
+    unfold future bufPart
+    simp only [if_pos ht0]
+    rw [n1]
+    have e1 : min (X.size - todo) (x.remaining - todo) = dl - todo := by omega
+    rw [e1, List.length_take, List.length_drop, hN]
+    have e2 : x.remaining - todo - min (dl - todo) (X.size - todo) = x.remaining - dl := by omega
+    rw [e2]
+  · refine ⟨h1, rfl, rfl, by show (nodeHash X x.length x.d ⟨dl, x.nodeOffset⟩ x.root).2.length = _; rw [n1]; exact hN,
+      ht, n2, ?_⟩
+    intro hc
+    show dl = X.size
+    rcases hc with hc | hc
+    · exact absurd hc (by show ¬ todo = 0; omega)
+    · have : X.size - todo ≤ x.remaining - todo := hc
+      omega
+
+/-! ### phases 2 + 3 -/
+
+theorem readNodes_spec (W : XLaws X) (len : Nat) (h0 : Bytes) (x : Xof X) (n : Nat) (acc : Bytes)
+    (hw : WF len h0 x) (ho : x.offset = 0) (hn : n ≤ x.remaining) :
+    (x.readNodes true n acc).2 = acc ++ (nodesFrom X len h0 x.nodeOffset x.remaining).take n ∧
+    future len h0 (x.readNodes true n acc).1 = (nodesFrom X len h0 x.nodeOffset x.remaining).drop n ∧
+    WF len h0 (x.readNodes true n acc).1 ∧
+    (x.readNodes true n acc).1.remaining = x.remaining - n := by
+  have hs := W.size_pos
+  have hdm := Nat.div_add_mod n X.size
+  rw [Nat.mul_comm] at hdm
+  have hml := Nat.mod_lt n hs
+  obtain ⟨f1, f2, f3, f4, f5⟩ := fullNodes_spec W len h0 (n / X.size) x acc hw ho (by omega)
+  unfold Xof.readNodes
+  simp only []
+  generalize hS : nodesFrom X len h0 x.nodeOffset x.remaining = S at *
+  by_cases hz : n % X.size > 0
+  · rw [if_pos hz]
+    obtain ⟨p1, p2, p3, p4⟩ := partialNode_spec W len h0 (fullNodes X true (n / X.size) x acc).1 (n % X.size)
+      (fullNodes X true (n / X.size) x acc).2 f3 f4 hz hml (by rw [f5]; omega)
+    rw [f2] at p1 p2
+    refine ⟨?_, ?_, p3, by rw [p4, f5]; omega⟩
+    · rw [p1, f1, List.append_assoc]
+      congr 1
+      conv => rhs; rw [← hdm]
+      rw [List.take_add]
+    · rw [p2, List.drop_drop]
+      congr 1
+      try omega
+  · rw [if_neg hz]
+    have hz0 : n % X.size = 0 := by omega
+    have hn' : n / X.size * X.size = n := by omega
+    refine ⟨by rw [f1, hn'], ?_, f3, by rw [f5, hn']⟩
+    unfold future bufPart
+    rw [if_neg (by rw [f4]; omega)]
+    simp only [List.nil_append, List.length_nil, Nat.sub_zero]
+    rw [f2, hn']
+
+/-! ### one Read -/
+
+theorem enterRead_of_readMode (x : Xof X) (h : x.readMode = true) : x.enterRead = x := by
+  simp [Xof.enterRead, h]
+
+/-- **one Read** of an XOF in read mode: it returns the next `min(len p, remaining)` bytes of what is still
+    to come, leaves exactly the rest to come, and reports EOF exactly when nothing was left -/
+theorem read_future (W : XLaws X) (len : Nat) (h0 : Bytes) (x : Xof X) (n : Nat) (hw : WF len h0 x) :
+    (x.read n).2.1 = (future len h0 x).take n ∧
+    future len h0 (x.read n).1 = (future len h0 x).drop n ∧
+    WF len h0 (x.read n).1 ∧
+    ((x.read n).2.2 = true ↔ x.remaining = 0) := by
+  have hs := W.size_pos
+  have hfl := future_length W len h0 x hw
+  obtain ⟨h1, h2, h3, h4, h5, h6, h7⟩ := hw
+  have hw : WF len h0 x := ⟨h1, h2, h3, h4, h5, h6, h7⟩
+  unfold Xof.read Xof.readG
+  rw [enterRead_of_readMode x h1]
+  simp only []
+  by_cases hr0 : x.remaining = 0
+  · rw [if_pos hr0]
+    have : future len h0 x = [] := List.eq_nil_of_length_eq_zero (by rw [hfl, hr0])
+    simp [this, hw, hr0]
+  rw [if_neg hr0]
+  -- taking `n` or `min n remaining` bytes of the future is the same
+  have htk : (future len h0 x).take n = (future len h0 x).take (min n x.remaining) := by
+    by_cases hle : n ≤ x.remaining
+    · rw [Nat.min_eq_left hle]
+    · rw [Nat.min_eq_right (by omega), List.take_of_length_le (by omega), List.take_of_length_le (by omega)]
+  have hdk : (future len h0 x).drop n = (future len h0 x).drop (min n x.remaining) := by
+    by_cases hle : n ≤ x.remaining
+    · rw [Nat.min_eq_left hle]
+    · rw [Nat.min_eq_right (by omega), List.drop_of_length_le (by omega), List.drop_of_length_le (by omega)]
+  rw [htk, hdk]
+  generalize hn' : min n x.remaining = n'
+  have hn'le : n' ≤ x.remaining := by omega
+  by_cases ho : x.offset > 0
+  · rw [if_pos ho]
+    have hbl : (bufPart x).length = min (X.size - x.offset) x.remaining := by
+      rw [bufPart_length len h0 x hw, if_pos ho]
+    have hbp : bufPart x = (x.block.drop x.offset).take (min (X.size - x.offset) x.remaining) := by
+      simp [bufPart, ho]
+    by_cases hlt : n' < X.size - x.offset
+    · rw [if_pos hlt]
+      simp only []
+      refine ⟨?_, ?_, ?_, by simp [hr0]⟩
+      · unfold future
+        rw [List.take_append_of_le_length (by omega), hbp, List.take_take, Nat.min_eq_left (by omega)]
+      · unfold future
+        rw [List.drop_append_of_le_length (by omega)]
+        have e1 : bufPart ({ x with offset := x.offset + n', remaining := x.remaining - n' } : Xof X) =
+            (bufPart x).drop n' := by
+          simp only [bufPart, if_pos ho, if_pos (show x.offset + n' > 0 by omega)]
+          rw [List.drop_take, List.drop_drop]
+          congr 1
+          omega
+        rw [e1, List.length_drop, hbl]
+        simp only []
+        congr 2
+        omega
+      · refine ⟨h1, h2, h3, h4, by show x.offset + n' < X.size; omega, h6, ?_⟩
+        intro hc
+        apply h7
+        right
+        rcases hc with hc | hc
+        · simp only [] at hc; omega
+        · simp only [] at hc; omega
+    · rw [if_neg hlt]
+      have hbr : X.size - x.offset ≤ x.remaining := by omega
+      have hdl := h7 (Or.inr hbr)
+      let x1 : Xof X := { x with offset := 0, remaining := x.remaining - (X.size - x.offset) }
+      have hw1 : WF len h0 x1 := ⟨h1, h2, h3, h4, hs, h6, fun _ => hdl⟩
+      obtain ⟨r1, r2, r3, r4⟩ := readNodes_spec W len h0 x1 (n' - (X.size - x.offset)) (x.block.drop x.offset)
+        hw1 rfl (by show _ ≤ x.remaining - (X.size - x.offset); omega)
+      have hbp' : bufPart x = x.block.drop x.offset := by
+        rw [hbp, Nat.min_eq_left hbr, List.take_of_length_le (by rw [List.length_drop, h4]; omega)]
+      have hbl' : (x.block.drop x.offset).length = X.size - x.offset := by rw [List.length_drop, h4]
+      have hfut : future len h0 x = x.block.drop x.offset ++
+          nodesFrom X len h0 x1.nodeOffset x1.remaining := by
+        unfold future; rw [hbp', hbl']
+      have hsplit : n' = (x.block.drop x.offset).length + (n' - (X.size - x.offset)) := by rw [hbl']; omega
+      simp only []
+      refine ⟨?_, ?_, r3, by simp [hr0]⟩
+      · rw [r1, hfut]
+        conv => rhs; rw [hsplit, take_len_add]
+      · rw [r2, hfut]
+        conv => rhs; rw [hsplit, drop_len_add]
+  · rw [if_neg ho]
+    have ho0 : x.offset = 0 := by omega
+    obtain ⟨r1, r2, r3, r4⟩ := readNodes_spec W len h0 x n' [] hw ho0 hn'le
+    have hfut : future len h0 x = nodesFrom X len h0 x.nodeOffset x.remaining := by
+      unfold future bufPart; rw [if_neg ho]; simp
+    simp only []
+    refine ⟨by rw [r1, hfut]; simp, by rw [r2, hfut], r3, by simp [hr0]⟩
+
+/-- a sequence of Reads: `(bytes, eof)` per call -/
+def readAll (x : Xof X) : List Nat → Xof X × List (Bytes × Bool)
+  | [] => (x, [])
+  | n :: r => ((readAll (x.read n).1 r).1, ((x.read n).2.1, (x.read n).2.2) :: (readAll (x.read n).1 r).2)
+
+theorem readAll_future (W : XLaws X) (len : Nat) (h0 : Bytes) (reads : List Nat) : ∀ (x : Xof X), WF len h0 x →
+    ((readAll x reads).2.map (·.1)).flatten = (future len h0 x).take reads.sum ∧
+    WF len h0 (readAll x reads).1 ∧
+    future len h0 (readAll x reads).1 = (future len h0 x).drop reads.sum := by
+  induction reads with
+  | nil => intro x hw; simp [readAll, hw]
+  | cons n r ih =>
+    intro x hw
+    obtain ⟨a1, a2, a3, _⟩ := read_future W len h0 x n hw
+    obtain ⟨b1, b2, b3⟩ := ih (x.read n).1 a3
+    simp only [readAll, List.map_cons, List.flatten_cons, List.sum_cons]
+    refine ⟨?_, b2, ?_⟩
+    · rw [b1, a1, a2, List.take_add]
+    · rw [b3, a2, List.drop_drop]
 
 end XC.C06
